@@ -9,7 +9,7 @@
    newer than the build file) and F2 (write_depfile writes .bfg_find_deps.tmp and renames it into place),
    v_repaired = with both.  The check detects which variant the tree under test contains and ties that one. *)
 From Coq Require Import List Bool Arith.
-From BFG Require Import State.Crash State.CrashProofs State.CrashSafe.
+From BFG Require Import State.Crash State.CrashProofs State.CrashSafe State.CrashReconf.
 Import ListNotations.
 
 (* ---- the code before the repairs (documents the two repaired defects) ---- *)
@@ -148,4 +148,55 @@ Example C10_raise_nonvacuous :
   f_build (apply_ops 4 (until_raise (run_events v_old p 12)) (fs_old p)) = oldf /\
   length (pre_ops v_repaired p) = 13 /\
   f_build (apply_ops 4 (until_raise (run_events v_repaired p 13)) (fs_old p)) = oldf.
+Proof. vm_compute. repeat split; reflexivity. Qed.
+
+(* ---- the history `options`: an existing build directory is configured again with other options (the tree is not
+   edited), that run is cut after n >= 2 mutations (.bfg_environ already holds the new options), and the next
+   regeneration attempt is bfg9000 regenerate --lazy run by hand.  reconf_ok v p n: that attempt fails visibly or leaves
+   the build file and the declared outputs written with the new options ---- *)
+
+(* with a cached find_files call and the code with F1, the unsafe crash points are exactly reconf_bad: every point from
+   the save of the new options up to (not including) the first touch of .bfg_find_cache - the old cache is trusted (open
+   finding C10-reconfigure-cut-before-findcache-save) - and the point at which the build file is truncated but not yet
+   written (open finding C10-lazy-by-hand-skips-over-truncated-buildfile); all other points are safe, in particular the
+   window between the cache save and the build-file write, which only F1's marker protects; for every number of
+   immediate files and both depfile variants *)
+Theorem C10_reconfigure_classified : forall v p n, uses_find p = true -> cal v = false -> dnc v = true -> 2 <= n ->
+  reconf_ok v p n = negb (reconf_bad v p n).
+Proof. exact reconf_classified. Qed.
+Print Assumptions C10_reconfigure_classified.
+
+Theorem C10_reconfigure_marker : forall p va, uses_find p = true ->
+  reconf_ok (mkV false va true) p (window_pt (mkV false va true) p) = true.
+Proof. exact reconf_marker. Qed.
+Print Assumptions C10_reconfigure_marker.
+
+(* the marker is necessary: when the cache file is not strictly newer than the old build file after the cache hook of
+   the cut run (the code without F1; equally a save that does not rewrite an unchanged cache), the follow-up exits 0 on
+   the old build file *)
+Theorem C10_reconfigure_marker_needed : forall p va, uses_find p = true ->
+  reconf_ok (mkV false va false) p (window_pt (mkV false va false) p) = false.
+Proof. exact reconf_marker_needed. Qed.
+Print Assumptions C10_reconfigure_marker_needed.
+
+(* the two open findings as witnesses of the repaired code *)
+Theorem C10_reconfigure_refuted : exists p n m,
+  uses_find p = true /\ 2 <= n /\ 2 <= m /\
+  reconf_ok v_repaired p n = false /\ is_new (f_env (crash 4 n (run_ops v_repaired p) (fs_old p))) = true /\
+  f_cache (crash 4 n (run_ops v_repaired p) (fs_old p)) = oldf /\
+  reconf_ok v_repaired p m = false /\ cont (f_build (crash 4 m (run_ops v_repaired p) (fs_old p))) = Empty.
+Proof. exists (mkP true 2 true), 5, 14. repeat split; try (vm_compute; reflexivity); auto with arith. Qed.
+Print Assumptions C10_reconfigure_refuted.
+
+(* without a cached find_files call there is no cache to trust: every point is safe *)
+Theorem C10_reconfigure_nofind_safe : forall v p n, uses_find p = false -> cal v = false -> 2 <= n -> reconf_ok v p n = true.
+Proof. exact reconf_nofind_safe. Qed.
+Print Assumptions C10_reconfigure_nofind_safe.
+
+Example C10_reconfigure_nonvacuous :
+  let p := mkP true 2 true in
+  window_pt v_repaired p = 13 /\ length (run_ops v_repaired p) = 17 /\
+  filter (fun n => negb (reconf_ok v_repaired p n)) (seq 2 17) = [2; 3; 4; 5; 6; 7; 8; 9; 10; 11; 14] /\
+  filter (reconf_bad v_repaired p) (seq 2 17) = [2; 3; 4; 5; 6; 7; 8; 9; 10; 11; 14] /\
+  filter (fun n => negb (reconf_ok (mkV false true false) p n)) (seq 2 17) = [2; 3; 4; 5; 6; 7; 8; 9; 10; 11; 13; 14].
 Proof. vm_compute. repeat split; reflexivity. Qed.
